@@ -78,8 +78,8 @@ Theorem G_queue_capacity : forall M g, QReach M g ->
 Proof. intros M g HR. apply queue_capacity. apply qreach_inv; auto. Qed.
 
 Theorem G_queue_fifo : forall M g, QReach M g ->
-    (forall p, plog (nth p (procs g) dps) =
-               slog (nth p (procs g) dps) ++ ftr (nth (2 * p + 1) (qthr g) dqt) ++ buf (nth p (procs g) dps)) /\
+    (forall p, pk (plog (nth p (procs g) dps)) =
+               slog (nth p (procs g) dps) ++ pk (ftr (nth (2 * p + 1) (qthr g) dqt)) ++ pk (buf (nth p (procs g) dps))) /\
     map snd (sendlog g) = getlog g ++ pipe g /\
     (forall p, from_proc p (sendlog g) = slog (nth p (procs g) dps)) /\
     (forall m, zcnt m (map snd (sendlog g)) = sumz (fun ps => zcnt m (slog ps)) (procs g)).
@@ -90,7 +90,7 @@ Theorem G_get_returns_received : forall M g m, QReach M g -> m <> E_EMPTY ->
     sumz (fun t => rcount m (qresults t)) (qthr g) + sumz (fun t => zcnt m (gheld t)) (qthr g).
 Proof. intros M g m HR. apply (get_returns_received M). apply qreach_inv; auto. Qed.
 
-Theorem G_put_get_exact : forall M g m, QReach M g -> m <> E_EMPTY ->
+Theorem G_put_get_exact : forall M g m, QReach M g -> m <> E_EMPTY -> picklable m = true ->
     sumz (fun ps => zcnt m (plog ps)) (procs g) =
     sumz (fun t => rcount m (qresults t)) (qthr g) + sumz (fun t => zcnt m (gheld t)) (qthr g)
     + zcnt m (pipe g)
@@ -98,11 +98,22 @@ Theorem G_put_get_exact : forall M g m, QReach M g -> m <> E_EMPTY ->
     + sumz (fun ps => zcnt m (buf ps)) (procs g).
 Proof. intros M g m HR. apply (put_get_exact M). apply qreach_inv; auto. Qed.
 
-Theorem G_feeder_ends_only_on_unpicklable : forall M g t, QReach M g -> In t (qthr g) ->
+Theorem G_feeder_drops_only_unpicklable : forall M g t, QReach M g -> In t (qthr g) ->
     qfeeder t = true -> qpc t = 14%nat -> picklable (r2 (qrg t)) = false.
-Proof. intros M g t HR. apply (feeder_ends_only_on_unpicklable M). apply qreach_inv; auto. Qed.
+Proof. intros M g t HR. apply (feeder_drops_only_unpicklable M). apply qreach_inv; auto. Qed.
 
-Theorem G_queue_no_loss_no_dup : forall M g m, QReach M g ->
+Theorem G_unpicklable_never_sent : forall M g m, QReach M g -> picklable m = false ->
+    zcnt m (map snd (sendlog g)) = 0 /\ zcnt m (getlog g) = 0 /\ zcnt m (pipe g) = 0.
+Proof. intros M g m HR. apply (unpicklable_never_sent M). apply qreach_inv; auto. Qed.
+
+Theorem G_feeder_never_ends : forall M g t, QReach M g -> In t (qthr g) -> qfeeder t = true ->
+    qfin t = false /\ qexited P_queue.code t = false.
+Proof.
+  intros M g t HR Ht Hf. destruct (feeder_never_ends M g t (qreach_inv M g HR) Ht Hf) as [A B].
+  split; [exact A|]. unfold qexited in *. rewrite gen_qcode_eq. exact B.
+Qed.
+
+Theorem G_queue_no_loss_no_dup : forall M g m, QReach M g -> picklable m = true ->
     sumz (fun ps => zcnt m (plog ps)) (procs g) =
     zcnt m (getlog g) + zcnt m (pipe g)
     + psum (fun p => zcnt m (ftr (nth (2 * p + 1) (qthr g) dqt))) (length (procs g))
@@ -215,19 +226,18 @@ Proof.
 Qed.
 
 (* ================================================================== the feeder's failure path
-   REFUTATION of "lose nothing" for the code as it is.  Queue._feed handles an exception of
-   `ForkingPickler.dumps(obj)` (or of send_bytes) OUTSIDE its `while 1` loop: the thread logs the
-   error and returns.  Capacity 2, process 0 puts an object that cannot be pickled (1000) and
-   then 12, process 1 waits in get().  Both puts are accepted (they return None).  The feeder
-   pops 1000, fails to serialise it and ends.  In the state reached NO step is possible any more
-   (nobody will ever move again): 12 sits in the buffer of process 0 and is never written to the
-   pipe, the consumer waits in recv for ever, and the capacity semaphore is 0 although only one
-   item is waiting and maxsize is 2 (the token of the dropped message is never returned). *)
+   REGRESSION CASE (the witness of the former refutation theorem of "lose nothing", continued).  Before the
+   repair 36337df the handler `except Exception` of Queue._feed was outside its `while 1`: the
+   first object that could not be serialised ended the feeder thread and everything put
+   afterwards by that process was lost.  Same scenario on the repaired code: capacity 2, process
+   0 puts an object that cannot be pickled (1000) and then 12, process 1 calls get().  The feeder
+   pops 1000, fails to serialise it, gives its capacity token back and goes on: 12 is written
+   to the pipe, received and RETURNED by the get; at the end nothing can move, every buffer and
+   the pipe are empty and the capacity semaphore is back at maxsize. *)
 Definition qlost_scripts : list (list qcall) :=
   [[(0%nat, 0, 1, 1000); (0%nat, 0, 1, 12)]; [(1%nat, 0, 1, 0)]].
 Definition qlost_sched : list (nat * bool) :=
-  [(0%nat, true); (0%nat, true); (0%nat, true); (0%nat, true); (0%nat, true); (0%nat, true);
-   (1%nat, true); (1%nat, true); (2%nat, true)].
+  repeat (0%nat, true) 6 ++ repeat (1%nat, true) 10 ++ repeat (2%nat, true) 4.
 Definition qlost_state : qsys := fst (fst (qrun P_queue.code (gen_qinit 2 qlost_scripts) qlost_sched)).
 
 Definition qdeadb (g : qsys) : bool :=
@@ -243,22 +253,20 @@ Proof.
     symmetry. apply nth_error_None. lia.
 Qed.
 
-Lemma qlost_witness :
+Lemma qlost_now_delivered :
   QReach 2 qlost_state /\
   (forall i go, qstep P_queue.code qlost_state i go = None) /\
   (* both puts of process 0 were accepted *)
   map snd (qresults (nth 0 (qthr qlost_state) dqt)) = [V_NONE; V_NONE] /\
   plog (nth 0 (procs qlost_state) dps) = [1000; 12] /\
-  (* the feeder of process 0 is gone, over the message it could not serialise *)
-  qexited P_queue.code (nth 1 (qthr qlost_state) dqt) = true /\
-  ftr (nth 1 (qthr qlost_state) dqt) = [1000] /\
-  (* 12 is buffered for ever: nothing was or will be written to the pipe *)
-  buf (nth 0 (procs qlost_state) dps) = [12] /\ sendlog qlost_state = [] /\ pipe qlost_state = [] /\
-  (* a get is waiting for it, in recv, holding the reader lock *)
-  (let c := nth 2 (qthr qlost_state) dqt in qfin c = false /\ qcid c = 1%nat /\ qpc c = 3%nat) /\
-  (* the capacity semaphore is exhausted although one item is waiting and maxsize is 2 *)
-  qv 0 qlost_state = 0 /\
-  sumz blen (procs qlost_state) + Z.of_nat (length (pipe qlost_state)) = 1.
+  (* the feeder of process 0 is alive (asleep on the notification semaphore of _notempty) and
+     has written 12, and only 12 *)
+  (let f := nth 1 (qthr qlost_state) dqt in qfin f = false /\ qexited P_queue.code f = false /\ qpc f = 4%nat) /\
+  sendlog qlost_state = [(0%nat, 12)] /\
+  (* the get of process 1 RETURNED 12 *)
+  map snd (qresults (nth 2 (qthr qlost_state) dqt)) = [12] /\ getlog qlost_state = [12] /\
+  (* nothing is left anywhere and the capacity is whole again *)
+  buf (nth 0 (procs qlost_state) dps) = [] /\ pipe qlost_state = [] /\ qv 0 qlost_state = 2.
 Proof.
   split.
   - exists qlost_scripts, qlost_sched.
